@@ -374,6 +374,23 @@ fn judge_handler(case: &Case, l: &mut Local) {
         }
     };
     let before: Vec<Iso3> = (0..count).map(|i| h.get_transform(i)).collect();
+    // a freshly built handler holds every body at the isometry it was given (the identity when none is given),
+    // and its parameter vector describes that state: setting it again changes nothing
+    {
+        let ident = Iso3::identity();
+        let mut ok = true;
+        for i in 0..count {
+            let want = if case.k % 2 == 0 { &initials[i] } else { &ident };
+            ok &= (before[i].to_matrix() - want.to_matrix()).abs().max() <= 1e-12;
+        }
+        let same = h.params().clone();
+        let mut again = ParamHandler::new(static_i, means.clone(), if case.k % 2 == 0 { Some(&initials[..]) } else { None });
+        again.set_param(&same);
+        for i in 0..count {
+            ok &= (again.get_transform(i).to_matrix() - before[i].to_matrix()).abs().max() <= 1e-12;
+        }
+        l.check("handler: every body starts at its initial isometry, and the initial parameter vector reproduces it", "", ok, mk, || format!("count {} static {}: body transforms {:?}", count, static_i, before.iter().map(|t| (t.translation.vector, t.rotation.euler_angles())).collect::<Vec<_>>()));
+    }
     // indices
     let mut ok = true;
     let mut next = 0;
